@@ -149,7 +149,8 @@ class Printer(PrinterBase):
         return f"{var}: {typ} = {value}"
 
     def make_constant(self, like, value):
-        return f"{value}"
+        s = str(value)
+        return {"inf": "math.inf", "-inf": "-math.inf", "nan": "math.nan"}.get(s, s)
 
     def show_value(self, var):
         return f'print("{var}=", {var})'
